@@ -382,7 +382,12 @@ def cmd_check(args):
 
     # reach probes: a required probe at zero over the whole batch is a harness problem
     required = getattr(eng, 'required_probes', lambda p, t: [])(prop, tier)
-    dead_probes = [p for p in required if not agg.probes.get(p)]
+    def _probe(name):
+        if name.endswith('*'):
+            return sum(v for k, v in agg.probes.items() if k.startswith(name[:-1]))
+        return agg.probes.get(name, 0)
+
+    dead_probes = [p for p in required if not _probe(p)]
     if dead_probes and exit_code == 0:
         print(f'HARNESS-ERROR probes never reached: {dead_probes}')
         exit_code = 2
